@@ -84,6 +84,13 @@ Theorem make_url_elides_defaults : forall fs c q f,
 Proof. exact make_url_elides_defaults_lemma. Qed.
 Print Assumptions make_url_elides_defaults.
 
+(* the URL made from a configuration is recognised as that configuration: making it again
+   changes nothing (the Config menu marks such an entry as current) *)
+Theorem make_url_idempotent : forall fs c q,
+  table_ok fs = true -> make_url fs c (fst (make_url fs c q)) = (fst (make_url fs c q), false).
+Proof. exact make_url_idempotent_lemma. Qed.
+Print Assumptions make_url_idempotent.
+
 (* applying a URL changes no option the URL does not mention *)
 Theorem apply_url_untouched : forall pf fs c0 q c' f,
   nodup_str (map f_name fs) = true -> apply_url_go pf fs c0 q = Ok c' -> In f fs ->
